@@ -1,7 +1,7 @@
 (* Properties/C02.v -- Encoder output is a conformant ISO/IEC 16022 data codeword stream (the parts that are theorems). *)
 From Coq Require Import Arith NArith List Bool.
 From DM Require Import Generated.Symbols Generated.ModeTables Spec.GF256 Spec.RSCode Model.Outcome Model.SymbolList Model.Planner Model.Enc
-  Model.RSEnc Model.GF Proofs.SymbolListProofs Proofs.RSEncProofs Proofs.EncLocal Proofs.EncTop.
+  Model.RSEnc Model.GF Model.PlannerRun Model.Api Proofs.SymbolListProofs Proofs.RSEncProofs Proofs.RSEncLen Proofs.EncLocal Proofs.EncTop.
 Import ListNotations.
 Local Open Scope N_scope.
 
@@ -18,6 +18,21 @@ Theorem C02_error_codewords : forall s d, length d = N.to_nat (num_data_codeword
     is_codeword (N.to_nat (num_ecc_blocks s)) (N.to_nat (num_ecc_per_block s)) d e.
 Proof. intros s d L B. destruct (encode_error_codeword s d L B) as (e & A & C & _ & D). exists e. repeat split; assumption. Qed.
 Print Assumptions C02_error_codewords.
+
+(* (ii') at the entry point DataMatrixBuilder::encode_eci, for every sort order: the codeword vector is the data
+   codewords followed by exactly the symbol's number of error codewords (no byte-range hypothesis needed) *)
+Theorem C02_codeword_vector : forall sorter data symbols modes use_macros fnc1 eci s cw all,
+  encode_eci sorter data symbols modes use_macros fnc1 eci = Ok (s, cw, all) ->
+  In s symbols /\ N.of_nat (length cw) = num_data_codewords s /\
+  exists ecc, all = cw ++ ecc /\ length ecc = (N.to_nat (num_ecc_per_block s) * N.to_nat (num_ecc_blocks s))%nat.
+Proof.
+  intros sorter data symbols modes um fnc1 eci s cw all. unfold encode_eci.
+  destruct (encode_data_internal _ _ _ _ _ _ _) as [[cw' s']| |] eqn:E; cbn [bind]; try discriminate.
+  destruct (encode_error s' cw') as [ecc| |] eqn:EE; try discriminate. intros [= <- <- <-].
+  apply encode_internal_ok in E. destruct E as (A & B & _). split; [exact A|]. split; [exact B|].
+  exists ecc. split; [reflexivity|]. eapply encode_error_length; exact EE.
+Qed.
+Print Assumptions C02_codeword_vector.
 
 (* (iii) unused capacity: nothing is ever removed from what the mode encoders wrote, and what follows it is -- if the
    stream does not fill the symbol -- [254 if the encoder is not in ASCII mode], then 129, then pads randomised with
